@@ -242,6 +242,12 @@ func (w *World) instrPos(in ssa.Instruction) string {
 // or the call-graph's resolution for dynamic calls).
 func (w *World) calleesOf(site ssa.CallInstruction) []*ssa.Function {
 	if f := site.Common().StaticCallee(); f != nil {
+		if isWrapper(f) {
+			// the thunk of a method expression, a bound-method closure: what it forwards to
+			if cs := w.cgCallees(f); len(cs) > 0 {
+				return cs
+			}
+		}
 		return []*ssa.Function{f}
 	}
 	n := w.CG.Nodes[site.Parent()]
@@ -251,6 +257,12 @@ func (w *World) calleesOf(site ssa.CallInstruction) []*ssa.Function {
 	var out []*ssa.Function
 	for _, e := range n.Out {
 		if e.Site == site && e.Callee.Func != nil {
+			if c := e.Callee.Func; isWrapper(c) {
+				if cs := w.cgCallees(c); len(cs) > 0 {
+					out = append(out, cs...)
+					continue
+				}
+			}
 			out = append(out, e.Callee.Func)
 		}
 	}
@@ -311,10 +323,8 @@ func (w *World) reachPkg(roots ...*ssa.Function) map[*ssa.Function]bool {
 	for len(stack) > 0 {
 		f := stack[len(stack)-1]
 		stack = stack[:len(stack)-1]
-		if n := w.CG.Nodes[f]; n != nil {
-			for _, e := range n.Out {
-				push(e.Callee.Func)
-			}
+		for _, c := range w.cgCallees(f) {
+			push(c)
 		}
 		for _, af := range f.AnonFuncs {
 			push(af)
@@ -335,12 +345,8 @@ func (w *World) canReach(targets map[*ssa.Function]bool) map[*ssa.Function]bool 
 			if out[f] {
 				continue
 			}
-			n := w.CG.Nodes[f]
-			if n == nil {
-				continue
-			}
-			for _, e := range n.Out {
-				if out[e.Callee.Func] {
+			for _, c := range w.cgCallees(f) {
+				if out[c] {
 					out[f] = true
 					changed = true
 					break
